@@ -5,11 +5,14 @@ From Coq Require Extraction.
 From Coq Require Import ExtrOcamlBasic.
 From GE Require Import Lib.Bytes Lib.Varint Lib.Sha256 Model.Tx Model.TxHash Model.PsetV0 Model.Sighash Spec.ElementsSighash.
 From GE Require Import Model.PsetV2.
+From GE Require Import Model.Block.
 From GE Require Import Model.Scalar.
 From GE Require Import Spec.PartialMerkle Model.Merkle Model.Pegin.
 From GE Require Import Model.Ripemd160 Model.Spend.
 From GE Require Import Model.Blind.
 From GE Require Import Model.Taproot.
+From GE Require Import Model.SigValidate.
+From GE Require Import Model.Roles.
 Extraction Language OCaml.
 Extraction "model.ml"
   Byte.of_N Byte.to_N N.of_nat N.to_nat Z.of_N
@@ -19,6 +22,7 @@ Extraction "model.ml"
   wf_tx norm_tx canonical_flag has_witness txid wtxid copy_tx
   digest_legacy digest_v0 digest_v1 preimage_legacy preimage_v0 preimage_v1
   spec_legacy_digest spec_v0_digest spec_v1_digest
+  ser_header ser_block parse_header parse_block wf_block norm_block
   v0_ser v0_parse v0_wf v0_wf_core v0_norm v0_canon
   parse_pset ser_pset wf_pset norm_pset global_tbl input_tbl output_tbl
   go_calc_offset go_sub_scalars go_add_offset sout_of sarg_after sreturns_global
@@ -29,4 +33,6 @@ Extraction "model.ml"
   extract2 unsigned_tx2 hop2_st strip_tx satisfies empty_pin
   bl_party_step bl_balanced bl_sc bl_enc b0_blind b0_balanced
   assemble_c cb_root_c parse_cb parse_cb_c ser_cb to_cb tapleaf_kv parse_tapleaf_kv_c verify_with_oracle
-  tweak_priv tweak_scalar scalar_of_bytes scalar_to_bytes x_on_curve tnode_hash leaf_hash.
+  tweak_priv tweak_scalar scalar_of_bytes scalar_to_bytes x_on_curve tnode_hash leaf_hash
+  vs_validate_input vs_validate_all vs_disasm
+  R11.init R11.step R11.rt R11.locktime.
